@@ -63,6 +63,10 @@ def tasks(tier):
                             out.append(dict(transport=tr, size=size, pairs=[pr], ending=end, driver=drv))
                     else:
                         out.append(dict(transport=tr, size=size, pairs=pairs, ending=end, driver=drv))
+    # short reads (the kernel may return fewer bytes than are available): pty transports, one per execution
+    for tr in ('pty-select', 'pty-poll'):
+        for drv in ('rnb', 'expect'):
+            out.append(dict(transport=tr, size=2000, pairs=[(5, 4)] if q else [(5, 4), (9, 0), (2000, 7)], ending='exit', driver=drv, short_reads=1))
     if not q:
         for tr in ('pty-select', 'fd-pipe', 'popen', 'socket'):
             for n in (4095, 4096, 4097, 65536, 300000):
@@ -140,6 +144,7 @@ def run_config(ch, task, x, y, record=None):
     """One execution.  Returns (observation dict, violation or None)."""
     E.install()
     env = E.Env(ch)
+    env.short_reads = task.get('short_reads', 0)      # environment answer: a read returns fewer bytes than available
     size = task['size']
     obs = {'chunks': [], 'end': None}
     viol = None
